@@ -119,7 +119,8 @@ def scenario_docs(k: int, rng: random.Random):
         aff = [c1, c2]
     elif kind == "name_order":
         cc = "QQ"
-        names = ["10_x.json", "9_x.json", "A_x.json", "a_x.json", "B_x.json", "_x.json", "zz.json", "z.json", "generated_.json", "overwrite_.json", "overwrite.v1.json"]
+        names = ["10_x.json", "9_x.json", "A_x.json", "a_x.json", "B_x.json", "_x.json", "zz.json", "z.json", "generated_.json", "overwrite_.json", "overwrite.v1.json",
+                 "zz-site.json", "zz site.json", "zz+1.json", "overwrite-local.json", "zz(1).json"]
         rng.shuffle(names)
         base = new_country(cc, rng, sepa=False)
         for i, nme in enumerate(names):
@@ -160,6 +161,8 @@ def scenario_docs(k: int, rng: random.Random):
         ov["bank_registry/generated_dz.json"] = [bank_entry(c, b, "BBBBDEFFXXX", "Between", True) for c, b in picks[1:3]]
         ov["bank_registry/zz_after_all.json"] = [bank_entry(c, b, "CCCCDEFF", "After all", True) for c, b in picks[2:]]
         ov["bank_registry/Z_upper.json"] = [bank_entry(c, b, "DDDDDEFF", "Upper-case name", False) for c, b in picks[:1]]
+        ov["bank_registry/a_before_all-extra.json"] = [bank_entry(c, b, "FFFFDEFF", "Hyphenated sibling", True) for c, b in picks[:2]]
+        ov["bank_registry/zz_after_all-1.json"] = [bank_entry(c, b, "GGGGDEFF", "Hyphenated sibling after", False) for c, b in picks[2:]]
         ov["bank_registry/_underscore.json"] = [bank_entry(c, b, "EEEEDEFF", "Underscore name", False) for c, b in picks[:1]]
         aff = sorted({c for c, _ in picks})
     elif kind == "one_key":
